@@ -353,33 +353,36 @@ func (c *caseSpec) archive() []byte {
 	payload := []byte("C02 payload")
 	switch c.Shape {
 	case shapeFile:
-		entries = []rawEntry{{c.name, kindFile, payload}}
+		entries = []rawEntry{{c.name, kindFile, payload, nil}}
 	case shapeDeflate:
-		entries = []rawEntry{{c.name, kindDeflate, bytes.Repeat(payload, 20)}}
+		entries = []rawEntry{{c.name, kindDeflate, bytes.Repeat(payload, 20), nil}}
 	case shapeDir:
-		entries = []rawEntry{{c.name, kindDir, nil}}
+		entries = []rawEntry{{c.name, kindDir, nil, nil}}
 	case shapeSymlink:
-		entries = []rawEntry{{c.name, kindSymlink, []byte("../../a")}}
+		entries = []rawEntry{{c.name, kindSymlink, []byte("../../a"), nil}}
 	case shapeAfterDir:
-		entries = []rawEntry{{[]byte("a/"), kindDir, nil}, {c.name, kindFile, payload}}
+		entries = []rawEntry{{[]byte("a/"), kindDir, nil, nil}, {c.name, kindFile, payload, nil}}
 	case shapeAfterSymlink:
-		entries = []rawEntry{{[]byte("a"), kindSymlink, []byte("../..")}, {c.name, kindFile, payload}}
+		entries = []rawEntry{{[]byte("a"), kindSymlink, []byte("../.."), nil}, {c.name, kindFile, payload, nil}}
 	case shapeAfterSelf:
-		entries = []rawEntry{{[]byte("./"), kindDir, nil}, {c.name, kindFile, payload}}
+		entries = []rawEntry{{[]byte("./"), kindDir, nil, nil}, {c.name, kindFile, payload, nil}}
 	case shapeAfterSelf2:
-		entries = []rawEntry{{[]byte("a/../"), kindDir, nil}, {c.name, kindFile, payload}}
+		entries = []rawEntry{{[]byte("a/../"), kindDir, nil, nil}, {c.name, kindFile, payload, nil}}
 	case shapeFifo:
-		entries = []rawEntry{{c.name, kindFifo, nil}}
+		entries = []rawEntry{{c.name, kindFifo, nil, nil}}
 	case shapeCharDev:
-		entries = []rawEntry{{c.name, kindCharDev, nil}}
+		entries = []rawEntry{{c.name, kindCharDev, nil, nil}}
 	case shapeSocket:
-		entries = []rawEntry{{c.name, kindSocket, nil}}
+		entries = []rawEntry{{c.name, kindSocket, nil, nil}}
+	case shapeUnicodePath, shapeUnicodePathASCII:
+		h := headerNameOf(c.Shape, c.name)
+		entries = []rawEntry{{Name: h, Kind: kindFile, Content: payload, Extra: unicodePathExtra(h, c.name)}}
 	case shapeLinkChain:
-		entries = []rawEntry{{[]byte("C:/ "), kindSymlink, []byte("..")}, {[]byte("C:/ /a"), kindSymlink, []byte("..")}, {c.name, kindFile, payload}}
+		entries = []rawEntry{{[]byte("C:/ "), kindSymlink, []byte(".."), nil}, {[]byte("C:/ /a"), kindSymlink, []byte(".."), nil}, {c.name, kindFile, payload, nil}}
 	}
 	z := buildZip(entries)
 	for i := len(c.Outer) - 1; i >= 0; i-- {
-		z = buildZip([]rawEntry{{[]byte(c.Outer[i]), kindFile, z}})
+		z = buildZip([]rawEntry{{[]byte(c.Outer[i]), kindFile, z, nil}})
 	}
 	return z
 }
@@ -405,7 +408,7 @@ func (c *caseSpec) rawResolvesOutside(base string) bool {
 		p := filepath.Join(d, o)
 		d = filepath.Join(filepath.Dir(p), stem(p))
 	}
-	ref := filepath.Join(d, string(c.name))
+	ref := filepath.Join(d, string(headerNameOf(c.Shape, c.name)))
 	if top == "." {
 		return filepath.IsAbs(ref) || ref == ".." || strings.HasPrefix(ref, "../")
 	}
